@@ -142,7 +142,8 @@ class SSETransport(Transport):
                 await self._cleanup()
                 raise RuntimeError("Timeout waiting for SSE connection")
 
-        except Exception as e:
+        except BaseException as e:
+            # BaseException: a cancellation while waiting must not leak the tasks and clients
             logger.error(f"Error in SSE transport __aenter__: {e}")
             await self._cleanup()
             raise
